@@ -938,6 +938,11 @@ def subscript(interp, base, idx, st, node):
         if len(its_) == len(base.shape) and all(d.is_const() and d.c == 1 for d in base.shape) and all(i_.has_const and isinstance(i_.const, int) and not isinstance(i_.const, bool) and i_.const in (0, -1) for i_ in its_):
             # the single entry of a 1 x 1 (x 1 ...) array
             return V("arr", T("reshape1", base.term), shape=(), orig=frozenset([FRESH]), labels=labels, loc=fresh_id(), extra=base.extra if isinstance(base.extra, str) else None)
+        if idx.has_const and isinstance(idx.const, int) and not isinstance(idx.const, bool) and idx.const in (0, -1) and len(base.shape) == 2 and base.shape[0].is_const() and base.shape[0].c == 1 and isinstance(base.term, Term) and base.term.op in ("reshape1", "T") and base.term.args and isinstance(base.term.args[0], Term):
+            # the only row of a (1, n) matrix that is a re-laid-out (n,) / (n, 1) array: that array as a vector
+            from .api_numpy import shape_terms
+
+            return V("arr", T("reshape1", base.term.args[0], *shape_terms((base.shape[1],))), shape=(base.shape[1],), orig=base.orig, labels=labels, loc=base.loc, extra=base.extra if isinstance(base.extra, str) else None)
         if idx.kind == "int" and len(base.shape) == 2 and isinstance(base.term, Term) and base.term.op in _ELEMENTWISE and hasattr(interp, "vtab") and not __import__("os").environ.get("VERIF_NO_PUSH"):
             # row k of an elementwise expression over broadcast operands: index the operands that have that row axis,
             # keep those that are broadcast along it (f(s, a.reshape(-1, 1))[k] = f(s, a[k]))
